@@ -6,7 +6,7 @@ From Coq Require Import Strings.Byte NArith ZArith List.
 From Coq Require Import Strings.String.
 Import ListNotations.
 Local Open Scope list_scope.
-From LLIR Require Import Lib.Bytes Lib.Radix Model.Natsort Model.Assemble Model.Writer Gen.Enums Proofs.EnumProofs Model.IntLit Model.Enc Model.Types Model.TypeString Model.Gep Model.ResultType Model.Numbering Model.MetadataIDs Model.Skeleton Model.History Model.FloatBits Model.FloatX87 Model.FloatPPC.
+From LLIR Require Import Lib.Bytes Lib.Radix Model.Natsort Model.Assemble Model.Writer Gen.Enums Model.EnumModel Model.IntLit Model.Enc Model.Types Model.TypeString Model.Gep Model.ResultType Model.Numbering Model.MetadataIDs Model.Skeleton Model.History Model.FloatBits Model.FloatX87 Model.FloatPPC.
 
 Definition byte_of_N_total (n : N) : byte := match Byte.of_N n with Some b => b | None => x00 end.
 (* C19: run the chunks against a writer failing after k bytes: (size, failed?, delivered, calls) *)
@@ -16,7 +16,7 @@ Definition writeto_fail_after (k : nat) (chunks : list bytes) : nat * bool * byt
 (* C18: the regenerated keyword tables *)
 Definition bytes_of_string (s : string) : bytes := list_byte_of_string s.
 Definition enum_table (ty : string) : option enum_tables :=
-  find (fun t => EnumProofs.bytes_eqb (e_name t) (bytes_of_string ty)) all_enums.
+  find (fun t => EnumModel.bytes_eqb (e_name t) (bytes_of_string ty)) all_enums.
 Definition print_Z (z : Z) : bytes :=
   match z with Zneg p => x2d :: Radix.print_dec_N (Npos p) | _ => Radix.print_dec_N (Z.to_N z) end.
 (* String() of an enum value: the keyword from the regenerated table, or Type(n) *)
@@ -30,7 +30,7 @@ Definition enum_str (ty : string) (v : Z) : bytes :=
   end.
 Definition enum_from (ty : string) (s : bytes) : option Z :=
   match enum_table ty with
-  | Some t => match from_string t s with EnumProofs.Ok v => Some v | EnumProofs.Panic => None end
+  | Some t => match from_string t s with EnumModel.Ok v => Some v | EnumModel.Panic => None end
   | None => None
   end.
 (* asm.irCallingConv on  cc N  (theorem C18_numeric_calling_convention_read over the regenerated body) *)
